@@ -70,6 +70,10 @@ def is_list(t):
     return isinstance(t, str) and t.startswith('List (')
 
 
+def elem_type(t):
+    return t[len('List ('):-1]
+
+
 def proj(s, i, n):
     """Lean projection of component i of an n-tuple expression s"""
     if n == 1:
@@ -134,8 +138,8 @@ class TrL(TrX):
         ar = {}
         for n in ast.walk(tree):
             if isinstance(n, ast.Call) and isinstance(n.func, ast.Attribute) and n.func.attr == 'append' \
-                    and isinstance(n.func.value, ast.Name) and len(n.args) == 1 and isinstance(n.args[0], ast.Tuple):
-                k = len(n.args[0].elts)
+                    and isinstance(n.func.value, ast.Name) and len(n.args) == 1:
+                k = len(n.args[0].elts) if isinstance(n.args[0], ast.Tuple) else 1      # 1: a list of plain ints
                 if ar.setdefault(n.func.value.id, k) != k:
                     raise Unsupported(f'list {n.func.value.id} holds tuples of different lengths')
         return ar
@@ -165,9 +169,8 @@ class TrL(TrX):
                 label = f'loop{self.nloops}'
                 carried = sorted(n for n in _assigned(st.body) if n in bound)
                 if isinstance(st, ast.For):
-                    if not isinstance(st.target, ast.Name):
-                        raise Unsupported('loop target ' + ast.dump(st.target)[:40])
-                    carried = [c for c in carried if c != st.target.id]
+                    tnames = self._loop_targets(st)
+                    carried = [c for c in carried if c not in tnames]
                 if not carried:
                     raise Unsupported(f'{label} changes no variable that is bound before it')
                 self.loops[label] = (st, carried)
@@ -181,8 +184,8 @@ class TrL(TrX):
                 continue
             if isinstance(st, ast.If):
                 b1, b2 = set(bound), set(bound)
-                body = self._lift(st.body, b1)
-                orelse = self._lift(st.orelse or [], b2)
+                body = self._lift(self._localise(st.body, bound), b1)
+                orelse = self._lift(self._localise(st.orelse or [], bound), b2)
                 # a tuple-valued name first bound in the branches of this `if`: pre-declare it (py2lean pre-declares ints only)
                 for x in _assigned(body + orelse):
                     if x in bound:
@@ -201,6 +204,43 @@ class TrL(TrX):
             out.append(st)
         return [ast.fix_missing_locations(s) for s in out]
 
+    @staticmethod
+    def _loop_targets(st):
+        """`for i in ...` -> [i]; `for i, x in enumerate(...)` -> [i, x]"""
+        t = st.target
+        if isinstance(t, ast.Name):
+            return [t.id]
+        if isinstance(t, ast.Tuple) and len(t.elts) == 2 and all(isinstance(e, ast.Name) for e in t.elts) \
+                and isinstance(st.iter, ast.Call) and isinstance(st.iter.func, ast.Name) and st.iter.func.id == 'enumerate':
+            return [e.id for e in t.elts]
+        raise Unsupported('loop target ' + ast.dump(t)[:40])
+
+    def _localise(self, branch, bound):
+        """names first bound in this branch of an `if` and read nowhere else in the function are temporaries of the branch: they are
+        renamed `tmpb_<name>` and kept out of the tuple of variables the `if` hands on (py2lean joins every name a branch assigns)"""
+        if not branch:
+            return branch
+        mod = ast.Module(body=branch, type_ignores=[])
+        inside = {}
+        for n in ast.walk(mod):
+            if isinstance(n, ast.Name):
+                inside[n.id] = inside.get(n.id, 0) + 1
+        total = {}
+        for n in ast.walk(self.tree):
+            if isinstance(n, ast.Name):
+                total[n.id] = total.get(n.id, 0) + 1
+        local = {x for x in _assigned(branch) if x not in bound and total.get(x, 0) == inside.get(x, 0) and not x.startswith('tmpb_')}
+        if not local:
+            return branch
+
+        class Ren(ast.NodeTransformer):
+            def visit_Name(self, node):
+                return ast.copy_location(ast.Name(id='tmpb_' + node.id, ctx=node.ctx), node) if node.id in local else node
+        return [Ren().visit(copy.deepcopy(s)) for s in branch]
+
+    def assigned_names(self, stmts):
+        return [n for n in Tr.assigned_names(self, stmts) if not n.startswith('tmpb_')]
+
     # ------------------------------------------------------------------ expressions
     def add_aux(self, name, text):
         self.aux = [a for a in self.aux if not a.rstrip().endswith(f'-- end {name}')]
@@ -218,6 +258,14 @@ class TrL(TrX):
                 if not 0 <= k < len(ps):
                     raise Unsupported('tuple index out of range')
                 return proj(s, k, len(ps)), ps[k]
+            raise Unsupported(f'subscript of {t}')
+        if isinstance(e, ast.Subscript) and not isinstance(e.slice, (ast.Slice, ast.Tuple)):
+            s, t = self.expr(e.value, env, pre)
+            if is_list(t):
+                k = self.as_int(e.slice, env, pre)
+                v = self.fresh('x')
+                pre.append(f'let {v} ← pyIndex {s} {k}')
+                return v, elem_type(t)
             raise Unsupported(f'subscript of {t}')
         if isinstance(e, ast.BinOp) and isinstance(e.op, ast.Add) and isinstance(e.right, ast.List) and len(e.right.elts) == 1:
             l, t = self.expr(e.left, env, pre)
@@ -267,8 +315,19 @@ class TrL(TrX):
         n = len(carried)
         is_for = isinstance(node, ast.For)
         used = _loads(ast.Module(body=node.body, type_ignores=[])) | (set() if is_for else _loads(node.test))
-        loopvar = node.target.id if is_for else None
-        caps = [k for k in env if k in used and k not in carried and k != loopvar and not k.startswith('st_loop')]
+        tnames = self._loop_targets(node) if is_for else []
+        is_enum = len(tnames) == 2
+        loopvar = tnames[0] if tnames else None
+        elemvar = tnames[1] if is_enum else None
+        etype = None
+        if is_enum:
+            if len(node.iter.args) != 1 or node.iter.keywords:
+                raise Unsupported(f'{label}: enumerate with a start value')
+            lexpr, ltype = self.expr(node.iter.args[0], env, pre)
+            if not is_list(ltype):
+                raise Unsupported(f'{label}: enumerate over {ltype}')
+            etype = elem_type(ltype)
+        caps = [k for k in env if k in used and k not in carried and k not in tnames and not k.startswith('st_loop')]
         sub_fuel = {k[len(label) + 1:]: v for k, v in self.fuel.items() if k.startswith(label + '.')}
         base = f'{self.name}_{label}'
 
@@ -278,20 +337,24 @@ class TrL(TrX):
             src = ast.unparse(ast.fix_missing_locations(ast.Module(body=[fd], type_ignores=[]))) + '\n'
             sig = {}
             for p in params:
-                sig[p] = INT if p == loopvar else env[p][1]
+                sig[p] = INT if p == loopvar else (etype if p == elemvar else env[p][1])
             sub = TrL(None, sig, f'{base}_{kind}', rettype, known=self.known, src=src, fuel=sub_fuel if kind == 'body' else None)
             self.add_aux(f'{base}_{kind}', sub.translate())
             self.loop_info += [(f'{label}.{a}', b, c, d, f) for a, b, c, d, f in sub.loop_info]
 
         ret = ast.Return(value=ast.Name(id=carried[0], ctx=ast.Load()) if n == 1 else
                          ast.Tuple(elts=[ast.Name(id=c, ctx=ast.Load()) for c in carried], ctx=ast.Load()))
-        body_params = caps + ([loopvar] if is_for and loopvar in _loads(ast.Module(body=node.body, type_ignores=[])) else []) + carried
+        body_loads = _loads(ast.Module(body=node.body, type_ignores=[]))
+        body_params = caps + ([loopvar] if is_for and (loopvar in body_loads or is_enum) else []) + ([elemvar] if is_enum else []) + carried
         synth('body', body_params, copy.deepcopy(node.body) + [ret], stype)
         capargs = ''.join(' ' + env[k][0] for k in caps)
         stargs = ''.join(' ' + proj('st', i, n) for i in range(n))
         init = env[carried[0]][0] if n == 1 else '(' + ', '.join(env[c][0] for c in carried) + ')'
         v = self.fresh('r')
-        if is_for:
+        if is_enum:
+            pre.append(f'let {v} ← forEnum (fun (i : Int) (x : {etype}) (st : {stype}) => {base}_body{capargs} i x{stargs}) {lexpr} (0 : Int) {init}')
+            self.loop_info.append((label, 'enumerate', carried, caps, None))
+        elif is_for:
             it = node.iter
             if not (isinstance(it, ast.Call) and isinstance(it.func, ast.Name) and it.func.id == 'range' and 1 <= len(it.args) <= 2 and not it.keywords):
                 raise Unsupported(f'{label}: iteration over ' + ast.unparse(it)[:60])
